@@ -347,8 +347,31 @@ func emitExportOptions(fi *ast.File) {
 	if len(l) < 2 || src(l[0]) != "ops := tx.Flags.ExportOptions.Copy()" || src(l[len(l)-1]) != "return ops" {
 		die("ExportOptions: does not start from a copy of the session's export options and return it")
 	}
-	var items []string
+	var items, overrides []string
+	assigned := map[string]bool{}
+	overridden := map[string]bool{}
 	for _, st := range l[1 : len(l)-1] {
+		if ifs, ok := st.(*ast.IfStmt); ok {
+			// if f.<flag> { ops.<Option> = nil | true | false }: an attribute that is withheld from the writer, after
+			// the unconditional assignment of the same option
+			if ifs.Init != nil || ifs.Else != nil || len(ifs.Body.List) != 1 || !strings.HasPrefix(src(ifs.Cond), "f.") || strings.ContainsAny(src(ifs.Cond), " (&|!") {
+				die("%s: statement `%s` is not if f.<flag> { ops.<Option> = nil | true | false }", pos(st), src(st))
+			}
+			as, ok := ifs.Body.List[0].(*ast.AssignStmt)
+			if !ok || as.Tok != token.ASSIGN || len(as.Lhs) != 1 || len(as.Rhs) != 1 || !strings.HasPrefix(src(as.Lhs[0]), "ops.") {
+				die("%s: statement `%s` is not if f.<flag> { ops.<Option> = nil | true | false }", pos(st), src(st))
+			}
+			opt, v := strings.TrimPrefix(src(as.Lhs[0]), "ops."), src(as.Rhs[0])
+			if v != "nil" && v != "true" && v != "false" {
+				die("%s: the value `%s` of a conditional override is not nil | true | false", pos(as), v)
+			}
+			if !assigned[opt] {
+				die("%s: the override of ops.%s comes before its unconditional assignment", pos(as), opt)
+			}
+			overridden[opt] = true
+			overrides = append(overrides, "("+q(opt)+", "+q(src(ifs.Cond))+", "+q(v)+")")
+			continue
+		}
 		as, ok := st.(*ast.AssignStmt)
 		if !ok || len(as.Lhs) != 1 || len(as.Rhs) != 1 || !strings.HasPrefix(src(as.Lhs[0]), "ops.") {
 			die("%s: statement `%s` is not ops.<Option> = f.<Attribute> | true | false", pos(st), src(st))
@@ -362,9 +385,80 @@ func emitExportOptions(fi *ast.File) {
 		default:
 			die("%s: statement `%s` is not ops.<Option> = f.<Attribute> | true | false", pos(st), src(st))
 		}
-		items = append(items, "("+q(strings.TrimPrefix(src(as.Lhs[0]), "ops."))+", "+q(rhs)+")")
+		opt := strings.TrimPrefix(src(as.Lhs[0]), "ops.")
+		if overridden[opt] {
+			die("%s: ops.%s is assigned again after its conditional override", pos(as), opt)
+		}
+		assigned[opt] = true
+		items = append(items, "("+q(opt)+", "+q(rhs)+")")
 	}
 	fmt.Printf("/-- FileInfo.ExportOptions: (export option, FileInfo attribute that overrides the session's value), unconditionally, in order -/\ndef exportOptionsMap : List (String × String) :=\n  [%s]\n\n", strings.Join(items, ", "))
+	fmt.Printf("/-- FileInfo.ExportOptions: what is withheld from the writer AFTER the unconditional mapping: (export option, condition on the FileInfo, value) -/\ndef exportOptionsOverrides : List (String × String × String) :=\n  [%s]\n\n", strings.Join(overrides, ", "))
+}
+
+// ---------- every store into the delimiter positions of a FileInfo, and the flag next to it ----------
+
+func emitPositionStores() {
+	dir := filepath.Join(repo(), "lib/query")
+	ents, err := os.ReadDir(dir)
+	if err != nil {
+		die("%v", err)
+	}
+	var items []string
+	for _, e := range ents {
+		if !strings.HasSuffix(e.Name(), ".go") || strings.HasSuffix(e.Name(), "_test.go") {
+			continue
+		}
+		f := parse("lib/query/" + e.Name())
+		for _, d := range f.Decls {
+			fn, ok := d.(*ast.FuncDecl)
+			if !ok || fn.Body == nil {
+				continue
+			}
+			// blocks, so that the flag store is looked for next to the positions store
+			ast.Inspect(fn.Body, func(n ast.Node) bool {
+				blk, ok := n.(*ast.BlockStmt)
+				if !ok {
+					return true
+				}
+				flag := ""
+				var stores []string
+				for _, st := range blk.List {
+					as, ok := st.(*ast.AssignStmt)
+					if !ok {
+						continue
+					}
+					for _, lh := range as.Lhs {
+						sel, ok := lh.(*ast.SelectorExpr)
+						if !ok {
+							continue
+						}
+						base := src(sel.X)
+						switch sel.Sel.Name {
+						case "DelimiterPositions":
+							if base == "ops" || base == "options" {
+								continue // ExportOptions / ImportOptions values, not a FileInfo
+							}
+							stores = append(stores, src(as))
+						case "positionsDetected":
+							if flag != "" {
+								die("%s: two stores into positionsDetected in one block", pos(as))
+							}
+							flag = src(as)
+						}
+					}
+				}
+				if flag != "" && len(stores) == 0 {
+					die("%s: `%s` without a store into DelimiterPositions in the same block", pos(blk), flag)
+				}
+				for _, s := range stores {
+					items = append(items, "("+q(fn.Name.Name)+", "+q(s)+", "+q(flag)+")")
+				}
+				return true
+			})
+		}
+	}
+	fmt.Printf("/-- every store into the DelimiterPositions of a FileInfo in lib/query: (function, statement, the store into\n    positionsDetected next to it in the same block, \"\" = none) -/\ndef fileInfoPositionStores : List (String × String × String) :=\n  [%s]\n\n", strings.Join(items, ",\n   "))
 }
 
 // ---------- the loaders' stores into fileInfo ----------
@@ -851,6 +945,243 @@ func emitFixedlen() {
 		qlist(pre), strings.Join(cases, ",\n   "))
 }
 
+// ---------- what reaches the position detection and the record reader of the fixed-length loader ----------
+
+// srcTerm: where the bytes of an io.Reader expression come from, as a Csvq.Gen.Enc.LoaderSrc term
+func srcTerm(fn *ast.FuncDecl, e ast.Expr, depth int) string {
+	if depth > 8 {
+		die("%s: definition chain of `%s` is too long", pos(e), src(e))
+	}
+	id, ok := e.(*ast.Ident)
+	if !ok {
+		die("%s: reader argument `%s` is not a variable (outside the subset)", pos(e), src(e))
+	}
+	if id.Name == "fp" {
+		for _, f := range fn.Type.Params.List {
+			for _, n := range f.Names {
+				if n.Name == "fp" && src(f.Type) == "*file.Reader" {
+					return ".file"
+				}
+			}
+		}
+		die("%s: `fp` is not the *file.Reader parameter of the loader", pos(e))
+	}
+	var rhs ast.Expr
+	count := 0
+	ast.Inspect(fn.Body, func(n ast.Node) bool {
+		if as, ok := n.(*ast.AssignStmt); ok && len(as.Rhs) == 1 {
+			for _, l := range as.Lhs {
+				if src(l) == id.Name {
+					count++
+					rhs = as.Rhs[0]
+					if as.Tok != token.DEFINE {
+						die("%s: `%s` is assigned more than once / not by := (outside the subset)", pos(as), id.Name)
+					}
+				}
+			}
+		}
+		return true
+	})
+	if count != 1 {
+		die("%s: `%s` has %d definitions (outside the subset)", pos(e), id.Name, count)
+	}
+	call, ok := rhs.(*ast.CallExpr)
+	if !ok {
+		die("%s: `%s` is not defined by a call (outside the subset)", pos(rhs), id.Name)
+	}
+	switch src(call.Fun) {
+	case "fp.HeadBytes":
+		if len(call.Args) == 0 {
+			return ".head"
+		}
+	case "io.ReadAll":
+		if len(call.Args) == 1 {
+			return ".readAll (" + srcTerm(fn, call.Args[0], depth+1) + ")"
+		}
+	case "bytes.NewReader":
+		if len(call.Args) == 1 {
+			return ".bytesReader (" + srcTerm(fn, call.Args[0], depth+1) + ")"
+		}
+	}
+	die("%s: `%s := %s` is none of fp.HeadBytes() / io.ReadAll(x) / bytes.NewReader(x) (outside the subset)", pos(rhs), id.Name, src(rhs))
+	return ""
+}
+
+func emitFixedSources(lv *ast.File) {
+	// the head the file.Reader keeps
+	lf := findFunc(lv, "", "loadViewFromFile")
+	headLen := ""
+	ast.Inspect(lf.Body, func(n ast.Node) bool {
+		if c, ok := n.(*ast.CallExpr); ok && src(c.Fun) == "file.NewReader" && len(c.Args) == 2 {
+			if headLen != "" {
+				die("loadViewFromFile: more than one file.NewReader")
+			}
+			if _, err := strconv.Atoi(src(c.Args[1])); err != nil {
+				die("%s: the head length `%s` of file.NewReader is not a literal", pos(c), src(c.Args[1]))
+			}
+			headLen = src(c.Args[1])
+		}
+		return true
+	})
+	if headLen == "" {
+		die("loadViewFromFile: file.NewReader(fp, <head length>) not found")
+	}
+	fn := findFunc(lv, "", "loadViewFromFixedLengthTextFile")
+	boolLit := func(b bool) string {
+		if b {
+			return "true"
+		}
+		return "false"
+	}
+	var detGuard, detInput, posStore string
+	var detSettings []string
+	var readerInputs []string
+	var pending []string // r = x assignments seen: (guard, term, consumed)
+	readerVar := ""
+	var walk func(stmts []ast.Stmt, guard string, consumed map[string]bool) map[string]bool
+	walk = func(stmts []ast.Stmt, guard string, consumed map[string]bool) map[string]bool {
+		for _, st := range stmts {
+			// reads and rewinds of this statement (not inside nested blocks: those are walked)
+			visit := func(n ast.Node) {
+				ast.Inspect(n, func(m ast.Node) bool {
+					switch c := m.(type) {
+					case *ast.BlockStmt:
+						return false
+					case *ast.CallExpr:
+						f := src(c.Fun)
+						switch {
+						case f == "fixedlen.NewDelimiter" && len(c.Args) == 2:
+							if detInput != "" {
+								die("%s: more than one fixedlen.NewDelimiter", pos(c))
+							}
+							detGuard, detInput = guard, srcTerm(fn, c.Args[0], 0)
+							consumed[src(c.Args[0])] = true
+						case f == "io.ReadAll" && len(c.Args) == 1:
+							consumed[src(c.Args[0])] = true
+						case strings.HasSuffix(f, ".Seek") && len(c.Args) == 2 && src(c.Args[0]) == "0" && src(c.Args[1]) == "io.SeekStart":
+							consumed[strings.TrimSuffix(f, ".Seek")] = false
+						case strings.HasSuffix(f, ".Read") || strings.HasSuffix(f, ".ReadByte") || strings.HasSuffix(f, ".ReadRune") || f == "io.Copy" || f == "io.ReadFull":
+							die("%s: `%s` reads from a source outside the subset", pos(c), src(c))
+						case f == "fixedlen.NewReader" && len(c.Args) == 3:
+							a := src(c.Args[0])
+							if a == readerVar && readerVar != "" {
+								readerInputs = append(readerInputs, pending...)
+							} else {
+								readerInputs = append(readerInputs, "("+q(guard)+", "+srcTerm(fn, c.Args[0], 0)+", "+boolLit(consumed[a])+")")
+							}
+						}
+					}
+					return true
+				})
+			}
+			switch s := st.(type) {
+			case *ast.DeclStmt:
+				if src(s) == "var r io.Reader" {
+					readerVar = "r"
+				}
+			case *ast.AssignStmt:
+				visit(s)
+				if len(s.Lhs) == 1 && src(s.Lhs[0]) == readerVar && readerVar != "" && s.Tok == token.ASSIGN {
+					a := src(s.Rhs[0])
+					pending = append(pending, "("+q(guard)+", "+srcTerm(fn, s.Rhs[0], 0)+", "+boolLit(consumed[a])+")")
+				}
+				if len(s.Lhs) == 2 && src(s.Lhs[0]) == "fileInfo.DelimiterPositions" {
+					if posStore != "" || guard != detGuard {
+						die("%s: a second store into fileInfo.DelimiterPositions, or one outside the branch of the detector", pos(s))
+					}
+					posStore = src(s)
+				}
+				if len(s.Lhs) == 1 && strings.HasPrefix(src(s.Lhs[0]), "d.") && guard == detGuard && detInput != "" {
+					detSettings = append(detSettings, src(s))
+				}
+			case *ast.IfStmt:
+				if s.Init != nil {
+					visit(s.Init)
+				}
+				g := src(s.Cond)
+				if s.Init != nil {
+					g = src(s.Init) + "; " + g
+				}
+				full := g
+				if guard != "" {
+					full = guard + " && " + g
+				}
+				cp := func() map[string]bool {
+					m := map[string]bool{}
+					for k, v := range consumed {
+						m[k] = v
+					}
+					return m
+				}
+				a := walk(s.Body.List, full, cp())
+				b := cp()
+				if s.Else != nil {
+					neg := "!(" + g + ")"
+					if guard != "" {
+						neg = guard + " && " + neg
+					}
+					if blk, ok := s.Else.(*ast.BlockStmt); ok {
+						b = walk(blk.List, neg, cp())
+					} else {
+						b = walk([]ast.Stmt{s.Else}, neg, cp())
+					}
+				}
+				for k := range a {
+					consumed[k] = a[k] || b[k]
+				}
+				for k := range b {
+					consumed[k] = a[k] || b[k]
+				}
+			case *ast.BlockStmt:
+				consumed = walk(s.List, guard, consumed)
+			case *ast.ForStmt, *ast.RangeStmt, *ast.SwitchStmt, *ast.TypeSwitchStmt, *ast.GoStmt, *ast.DeferStmt, *ast.SelectStmt:
+				ast.Inspect(s, func(m ast.Node) bool {
+					if c, ok := m.(*ast.CallExpr); ok {
+						switch src(c.Fun) {
+						case "fixedlen.NewDelimiter", "fixedlen.NewReader", "io.ReadAll":
+							die("%s: `%s` inside a loop / switch / closure is outside the subset", pos(c), src(c))
+						}
+					}
+					return true
+				})
+			default:
+				visit(st)
+			}
+		}
+		return consumed
+	}
+	walk(fn.Body.List, "", map[string]bool{})
+	if detInput == "" || posStore == "" || len(readerInputs) == 0 {
+		die("loadViewFromFixedLengthTextFile: fixedlen.NewDelimiter / the store of its positions / fixedlen.NewReader not found")
+	}
+	fmt.Printf(`/-- where the bytes that a go-text reader / detector is handed come from, inside a loader.  fp is the file.Reader the
+    loader is given (it replays its head: reading fp yields the file from its first byte) -/
+inductive LoaderSrc where
+  | file                          -- fp itself
+  | head                          -- fp.HeadBytes(): a copy of the first loaderHeadLen bytes
+  | readAll (s : LoaderSrc)       -- io.ReadAll(s)
+  | bytesReader (s : LoaderSrc)   -- bytes.NewReader(s)
+  deriving DecidableEq, Repr
+
+/-- loadViewFromFile: the length of the head file.NewReader keeps (for the detection of the encoding) -/
+def loaderHeadLen : Nat := %s
+
+/-- loadViewFromFixedLengthTextFile, automatic delimiter positions: the branch of the position detection, what
+    fixedlen.NewDelimiter is handed, the settings of the detector, the store of what it finds -/
+def fixedAutoGuard : String := %s
+def fixedAutoDetectorInput : LoaderSrc := %s
+def fixedAutoDetectorSettings : List String :=
+  %s
+def fixedAutoPositionsStore : String := %s
+
+/-- what fixedlen.NewReader (the record reader) is handed: (branch, source, the source has been read from before and
+    not been rewound by Seek(0, io.SeekStart)) -/
+def fixedReaderInputs : List (String × LoaderSrc × Bool) :=
+  [%s]
+
+`, headLen, q(detGuard), detInput, qlist(detSettings), q(posStore), strings.Join(readerInputs, ", "))
+}
+
 func main() {
 	enc := parse("lib/query/encode.go")
 	fi := parse("lib/query/file_info.go")
@@ -868,7 +1199,9 @@ func main() {
 	emitConvert(enc)
 	emitEnding(enc)
 	emitExportOptions(fi)
+	emitPositionStores()
 	emitLoaders(lv)
+	emitFixedSources(lv)
 	emitDetector(lv)
 	emitFixedlen()
 	fmt.Println("end Csvq.Gen.Enc")
